@@ -53,10 +53,12 @@ OpenHandles == {x \in 1..MaxTx : Open(x)}
 \* mostly an open handle; now and then an unknown (0) or finished one
 RHandle == IF OpenHandles # {} THEN {IF r <= 17 THEN Rnd(OpenHandles) ELSE Rnd(0..nh) : r \in {R(20)}}
            ELSE {Rnd(0..nh) : r \in {R(5)} \ {2, 3, 4, 5}}
-RScan == {[s |-> BoundSeq[a], e |-> BoundSeq[b], p |-> AffixSeq[c], x |-> AffixSeq[d], l |-> LimitSeq[e]] :
-            a \in {IF R(2) = 1 THEN 1 ELSE R(Len(BoundSeq))}, b \in {IF R(2) = 1 THEN 1 ELSE R(Len(BoundSeq))},
-            c \in {IF R(2) = 1 THEN 1 ELSE R(Len(AffixSeq))}, d \in {IF R(2) = 1 THEN 1 ELSE R(Len(AffixSeq))},
+\* C16 is about WHETHER reads are served, not about scan options (C19): there a scan has a range or affixes, not both
+RScanW(w) == {[s |-> BoundSeq[a], e |-> BoundSeq[b], p |-> AffixSeq[c], x |-> AffixSeq[d], l |-> LimitSeq[e]] :
+            a \in {IF R(2) = 1 \/ w = 2 THEN 1 ELSE R(Len(BoundSeq))}, b \in {IF R(2) = 1 \/ w = 2 THEN 1 ELSE R(Len(BoundSeq))},
+            c \in {IF R(2) = 1 \/ w = 1 THEN 1 ELSE R(Len(AffixSeq))}, d \in {IF R(2) = 1 \/ w = 1 THEN 1 ELSE R(Len(AffixSeq))},
             e \in {R(Len(LimitSeq))}}
+RScan == UNION {RScanW(w) : w \in {IF Flavour = "c16" THEN R(2) ELSE 0}}
 BOp(t, k, v) == [t |-> t, k |-> k, v |-> v]
 ROp(good) == {BOp(IF r = 1 THEN "del" ELSE "put", k, v) : r \in {R(3)}, k \in (IF good THEN RGoodKey ELSE RKey),
                                                            v \in (IF good THEN RGoodVal ELSE RVal)}
@@ -70,7 +72,9 @@ MayBegin == nh < MaxTx - 1
 
 RandomStep ==
   \E via \in ViaSet :
-    LET good == via = "emb" IN
+    \* good: only keys and values inside the limits.  Always so on the embedded API (it has no limits) and in the C16
+    \* flavour (limits and handle hygiene are C19's subject)
+    LET good == via = "emb" \/ Flavour = "c16" IN
     \/ \E k \in (IF good THEN RGoodKey ELSE RKey) : Step([Q("get") EXCEPT !.via = via, !.k = k])
     \/ \E k \in (IF good THEN RGoodKey ELSE RKey), v \in (IF good THEN RGoodVal ELSE RVal) :
          Step([Q("put") EXCEPT !.via = via, !.k = k, !.v = v])
@@ -83,13 +87,13 @@ RandomStep ==
     \/ \E x \in RHandle : x > 0 /\ R(3) = 1 /\ Step([Q("commit") EXCEPT !.via = txs[x].via, !.h = x])
     \/ \E x \in RHandle : x > 0 /\ R(5) = 1 /\ Step([Q("rollback") EXCEPT !.via = txs[x].via, !.h = x])
     \/ R(4) = 1 /\ Step([Q(IF R(2) = 1 THEN "commit" ELSE "rollback") EXCEPT !.h = 0])
-    \/ \E x \in RHandle, k \in RKey :
+    \/ \E x \in RHandle, k \in (IF Flavour = "c16" THEN RGoodKey ELSE RKey) :
          LET v == IF x > 0 THEN txs[x].via ELSE "grpc"
          IN (v = "grpc" \/ ValidKey(k)) /\ Step([Q("txget") EXCEPT !.via = v, !.h = x, !.k = k])
-    \/ \E x \in RHandle, k \in RKey, val \in RVal :
+    \/ \E x \in RHandle, k \in (IF Flavour = "c16" THEN RGoodKey ELSE RKey), val \in (IF Flavour = "c16" THEN RGoodVal ELSE RVal) :
          LET v == IF x > 0 THEN txs[x].via ELSE "grpc"
          IN (v = "grpc" \/ (ValidKey(k) /\ ValidVal(val) /\ val # "VMAX")) /\ Step([Q("txput") EXCEPT !.via = v, !.h = x, !.k = k, !.v = val])
-    \/ \E x \in RHandle, k \in RKey :
+    \/ \E x \in RHandle, k \in (IF Flavour = "c16" THEN RGoodKey ELSE RKey) :
          LET v == IF x > 0 THEN txs[x].via ELSE "grpc"
          IN (v = "grpc" \/ ValidKey(k)) /\ Step([Q("txdel") EXCEPT !.via = v, !.h = x, !.k = k])
     \/ \E x \in RHandle, so \in RScan :
